@@ -122,8 +122,31 @@ pub fn run(ctx: &mut Ctx) {
         }
         let s = inputs::small_string(i, small_len);
         for (m, l) in [(63u8, "default"), (62, "default"), (63, "Square14"), (18, "all")] {
-            eval(ctx, &EncCase { input: s.clone(), list: l.into(), mask: m, macros: false, fnc1: false, eci: None, order: 0 }, "small_scope_exhaustive");
+            eval(ctx, &EncCase { input: s.clone(), list: l.into(), mask: m, macros: false, fnc1: false, eci: None, order: 0, prelude: 0, skipdef: false }, "small_scope_exhaustive");
         }
+    }
+    let mut item = 0usize;
+    for l in 245..=252usize {
+        for p in 0..=40usize {
+            if !ctx.mine(item) {
+                item += 1;
+                continue;
+            }
+            item += 1;
+            for t in 0..=8usize {
+                let input = inputs::b256_three_part(p, l, t);
+                for list in ["default", "Square64", "Square72", "all"] {
+                    eval(ctx, &EncCase { input: input.clone(), list: list.into(), mask: 63, macros: false, fnc1: false, eci: None, order: 0, prelude: 0, skipdef: false }, "base256_boundary_three_part");
+                }
+            }
+        }
+    }
+    let fam_step = if ctx.is_thorough() { 1 } else { 3 };
+    let mut i = ctx.shard * fam_step + 1;
+    while i < inputs::family_count() {
+        let input = inputs::family_case(i);
+        eval(ctx, &EncCase { input, list: if i % 4 == 1 { "all".into() } else { "default".into() }, mask: 63, macros: false, fnc1: false, eci: None, order: 0, prelude: 0, skipdef: false }, "three_part_family");
+        i += fam_step * ctx.nshards;
     }
     let n = ctx.budget(250_000, 25_000_000);
     for i in 0..n {
